@@ -55,8 +55,10 @@ def base_scenarios(tier):
                     for path in ("bar", "signal", "order-event"):
                         for recorder in (None, 0, npairs - 1):
                             for script in singles + doubles:
-                                for otype in ("market", "limit"):
-                                    if otype == "limit" and (path != "bar" or recorder is not None):
+                                for otype in ("market", "limit", "limit-cancel"):
+                                    if otype != "market" and (path != "bar" or recorder is not None):
+                                        continue
+                                    if otype == "limit-cancel" and len(script) > 1:
                                         continue
                                     if recorder is not None and path == "order-event":
                                         continue
@@ -67,6 +69,12 @@ def base_scenarios(tier):
 def scenarios(tier, seed):
     seeds = [1, 2 + (seed % 1000)] if tier == "quick" else [1, 2 + (seed % 1000), 12345, 4242]
     out = [("hashseed", s, tier) for s in seeds]  # first: they are the longest single work items
+    # lending histories (several equal loans, auto-repay orders that can afford only some of them): results must not
+    # depend on the random order / loan ids
+    for name, depth in ((("K1", 6), ("K10", 6)) if tier == "quick" else (("K1", 7), ("K10", 7), ("K13", 7))):
+        for b in (0, 14, 15):
+            out.append(("ids", name, depth, b))
+    out += [("ids", name, 0, 0) for name in TIE_CONFIGS]
     out += [("explore", b) for b in base_scenarios(tier)]
     return out
 
@@ -86,6 +94,7 @@ def make_run(base, maxc, states=None):
         gates = Gates(ch)
         sig = bs.TradingSignalSource(d)
         placed_followup = [False]
+        cancels = []
 
         def note():
             if states is not None:
@@ -97,15 +106,29 @@ def make_run(base, maxc, states=None):
             try:
                 if otype == "market":
                     o = await e.create_market_order(bs.OrderOperation.BUY, PS[dst], D(1))
-                else:
+                elif otype == "limit":
                     o = await e.create_limit_order(bs.OrderOperation.BUY, PS[dst], D(1), D(120))
+                else:
+                    # rests below the market; the handler of the source pair's next bar cancels it (or finds it filled)
+                    o = await e.create_limit_order(bs.OrderOperation.BUY, PS[dst], D(1), D(103))
+                    to_cancel.append(o.id)
                 subs.append((len(subs), o.id, secs(d.now()), tag))
             except ex.Error:
                 rejected.append((tag, secs(d.now())))
             await gates.suspend("post")
 
+        to_cancel = []
+
         def mkh(i):
             async def h(ev):
+                if otype == "limit-cancel" and i == script[0][0] and to_cancel and ev.when > T(times[i][0]):
+                    oid = to_cancel.pop()
+                    await gates.suspend("pre-cancel")
+                    try:
+                        await e.cancel_order(oid)
+                        cancels.append(("cancelled", secs(d.now())))
+                    except ex.Error:
+                        cancels.append(("cancel-failed", secs(d.now())))
                 for k, (src, dst) in enumerate(script):
                     if src == i and ev.when == T(times[src][0]):
                         if path == "signal":
@@ -172,7 +195,7 @@ def make_run(base, maxc, states=None):
             bal = tuple(sorted((k, str(v.available), str(v.hold), str(v.borrowed)) for k, v in s.value.items()))
         placements = tuple((k, at, tag) for (k, _, at, tag) in subs)
         return dict(out=out, look=look, hist=hist, internal=internal, bal=bal, placements=placements,
-                    rejected=tuple(rejected))
+                    rejected=tuple(rejected) + tuple(cancels))
     return run_one
 
 
@@ -190,8 +213,79 @@ def clause2_digest(tier):
     return h.hexdigest()
 
 
+TIE_CONFIGS = {
+    "T0": dict(lend=dict(req="0.5", isym="USD", period=10), fee=None, liq=None, init=(("BTC", 3),), bp=0, qp=2),
+    "T1": dict(lend=dict(req="1", isym="same", period=7, minint=1), fee=(1, 0), liq=None, init=(("USD", 100), ("BTC", 1)), bp=0, qp=2),
+    "T2": dict(lend=dict(req="0.5", isym="USD", period=3), fee=None, liq=(25, 10), init=(("USD", 50), ("BTC", 2)), bp=0, qp=2),
+}
+
+
+def tie_histories():
+    """n equal loans opened at different times, the borrowed money spent, then an auto-repay sell whose proceeds cover
+    only some of them."""
+    out = []
+    for n in (2, 3):
+        for spend in (1, 2, 3):
+            for sell in (1, 2, 3):
+                for gap in (0, 1):
+                    h = [("bar", 0, 7)]
+                    for k in range(n):
+                        h.append(("loan", "USD", "100"))
+                        h += [("bar", 0, 7)] * (1 + gap)
+                    h.append(("ord", "mkt", "B", 0, str(spend), None, None, False, False))
+                    h.append(("bar", 0, 7))
+                    h.append(("ord", "mkt", "S", 0, str(sell), None, None, False, True))
+                    h.append(("bar", 0, 7))
+                    out.append(h)
+    return out
+
+
+def run_ids(sc, res):
+    """Results must not depend on the (random) order / loan ids: every history is run under three deterministic id schemes
+    whose id ORDER differs (ascending with creation, descending, alternating) and the normalised observations compared."""
+    from checks import _exch_common as X
+    from worlds import exch, exch_bfs
+    _, name, depth, b = sc
+    exch.install_deterministic_ids()
+    if name in TIE_CONFIGS:
+        cfg = TIE_CONFIGS[name]
+        hists = tie_histories()
+    else:
+        cfg = X.CONFIGS[name]
+        alpha = exch.alphabet(cfg, "ar")
+        hists = []
+        exch_bfs.bfs(cfg, alpha, depth, [], res, prefix=[("bar", 0, b)], on_state=hists.append)
+    try:
+        for hist in hists:
+            obs = {}
+            for scheme in ("asc", "desc", "mix"):
+                exch._ids.scheme = scheme
+                obs[scheme] = exch_bfs.normalized(exch_bfs.run_sync(cfg, hist))
+            res.executions += 3
+            res.transitions += 3 * len(hist)
+            res.validated += 1
+            if any(not lo[1] for lo in obs["asc"]["loans"]):
+                res.nontrivial.add(h64((name, repr(hist))))
+            for scheme in ("desc", "mix"):
+                if obs[scheme] != obs["asc"]:
+                    diff = [k for k in obs["asc"] if obs["asc"][k] != obs[scheme][k]]
+                    res.violation(f"{PROPERTY}:depends-on-random-ids:lending",
+                                  f"the same history gives different {diff} when order / loan ids sort differently: "
+                                  f"{[(obs['asc'][k], obs[scheme][k]) for k in diff][:1]}; config={name} history={hist}",
+                                  dict(kind="ids", config=name, history=hist), size=len(hist))
+                    break
+    finally:
+        exch._ids.scheme = "asc"
+    res.outcomes["ids-histories"] += len(hists)
+    if hists:
+        res.samples.append(dict(kind="ids", config=name, history=[list(x) for x in hists[-1]]))
+    return res
+
+
 def run_scenario(sc, tier):
     res = Result()
+    if sc[0] == "ids":
+        return run_ids(sc, res)
     if sc[0] == "hashseed":
         _, hs, t = sc
         mine = clause2_digest(t)
@@ -269,6 +363,21 @@ def _unj(b):
 
 
 def replay(rep):
+    if rep.get("kind") == "ids":
+        from checks import _exch_common as X
+        from worlds import exch, exch_bfs
+        cfg = TIE_CONFIGS.get(rep["config"]) or X.CONFIGS[rep["config"]]
+        hist = [tuple(a) for a in rep["history"]]
+        exch.install_deterministic_ids()
+        outs = {}
+        for scheme in ("asc", "desc", "mix"):
+            exch._ids.scheme = scheme
+            outs[scheme] = exch_bfs.normalized(exch_bfs.run_sync(cfg, hist))
+        exch._ids.scheme = "asc"
+        print("history:", hist)
+        for k, v in outs.items():
+            print(k, "balances:", v["bal"], "loans:", v["loans"])
+        return ["results depend on the order of the random ids"] if any(v != outs["asc"] for v in outs.values()) else []
     if rep.get("kind") == "hashseed":
         res = run_scenario(("hashseed", rep["seed"], rep["tier"]), rep["tier"])
         return [v["message"] for v in res.violations]
